@@ -148,12 +148,18 @@ def gen_case(rng):
         r = rfc5545.Rule(freq)
         if rng.random() < 0.25:
             r.interval = rng.choice([2, 3, 5])
-        shape = rng.choice(["md", "md", "ndow", "mon+md", "mon+ndow", "plain", "neg-md"])
+        shape = rng.choice(["md", "md", "ndow", "mon+md", "mon+ndow", "plain", "neg-md", "ends"])
         if "mon" in shape or (freq == "YEARLY" and shape in ("md", "ndow", "neg-md") and rng.random() < 0.7):
             r.bymonth = sorted(set(rng.randint(1, 12) for _ in range(rng.randint(1, 3))))
         if "md" in shape:
             r.bymonthday = [rng.choice([1, 15, 28, 29, 30, 31, -1, -2, rng.randint(1, 31)]) for _ in range(rng.randint(1, 2))]
             r.bymonthday = sorted(set(r.bymonthday))
+        if shape == "ends":
+            # month ends and starts: their shifted dates meet on one business day
+            r.bymonthday = sorted(set(rng.sample([1, 2, 3, -1, -2, -3, 28, 29, 30, 31], rng.randint(2, 4))))
+            if freq == "YEARLY":
+                m0 = rng.randint(1, 11)
+                r.bymonth = [m0, m0 + 1]
         if "ndow" in shape:
             r.byday = [(rng.choice([1, 2, 3, 4, -1, -2]), rng.randint(0, 6))]
         if rng.random() < 0.15 and (r.bymonthday or r.byday):
